@@ -1,0 +1,11 @@
+//go:build verif
+
+package object
+
+// VerifC53ParseSignedBytes exposes parseSignedBytes to the verification
+// harness (mirror of FuzzParseSignedBytes). The signature type is returned
+// as its underlying int8.
+func VerifC53ParseSignedBytes(b []byte) (int, int8) {
+	pos, st := parseSignedBytes(b)
+	return pos, int8(st)
+}
